@@ -1,5 +1,8 @@
+mod ast;
 mod engines;
 mod harness;
+mod refsylt;
+mod selftest;
 mod pool;
 mod report;
 mod util;
@@ -17,6 +20,9 @@ fn main() {
     let args: Vec<String> = std::env::args().skip(1).collect();
     if args.is_empty() {
         usage();
+    }
+    if args[0] == "selftest" {
+        std::process::exit(pool::on_fresh_thread(1, || selftest::run()));
     }
     if args[0] == "replay" {
         let dir = args.get(1).unwrap_or_else(|| usage());
